@@ -152,6 +152,10 @@ def _relation_shard(shard, n, tier, seed, budget_s):
                 rep["failed_a_hint"] += 1
         if r_on.get("outcome") != "ok":
             continue
+        if m["kind"] == "limit" or m.get("hint_failures", 0) > 0:
+            # a type check failed and a try block caught it (or the model cannot tell): the run with checks off legitimately differs
+            rep["hint_failure_caught_or_unknown"] = rep.get("hint_failure_caught_or_unknown", 0) + 1
+            continue
         rep["passed_with_checks_on"] += 1
         r_off = w.exec(text, timeout=20, limit_ms=4000, type_checks=False)
         rep["evaluations"] += 1
